@@ -864,10 +864,10 @@ HIST_RULE = ("HIST: histories of 2..6 calls on one long-lived thread, each call 
 PROPS["C10"] = {
     "coq": "theories/Props/C10.v",
     "theorems": ["C10_rice_finder_ignores_stale_scratch", "C10_fixed_planes_ignore_stale_scratch", "C10_window_cache_exact",
-                 "C10_colliding_key_leaks", "C10_qlpc_buffer_ignores_stale_contents"],
+                 "C10_colliding_key_leaks", "C10_qlpc_buffer_ignores_stale_contents", "C10_ms_buffer_ignores_stale_contents"],
     "streams": [HIST_STREAM, SCR_STREAM], "rule": HIST_RULE,
     "oracle": hist_oracle,
-    "assumptions": ["mid/side buffer, estimator float buffers and CRC scratch sinks: no stale-content theorem; covered by the HIST stream "
+    "assumptions": ["estimator float buffers and CRC scratch sinks: no stale-content theorem (the mid/side buffer has one, but its FrameBuf model has no hook of its own); covered by the HIST stream "
                     "with natural histories AND with arbitrary poisoned contents (poison_scratch hook) before calls",
                     "parse calls are exercised through encode + parse + re-serialise; other threads' histories through the multi-threaded call",
                     "the table scratch of the Rice finder is modelled by its active prefix tables[0..nparts] (the code never indexes beyond it)"],
